@@ -142,6 +142,122 @@ fn drive_cmd(args: &[String]) -> i32 {
     0
 }
 
+/// bvh code <sessions.ndjson> <out.ndjson> [max_steps]
+/// Every command of every session is delivered to a fresh interpreter and executed one `execute(1)`
+/// at a time.  Output per session: the commands in the parser's normal form (its own AST mapped to
+/// the specification's shapes; replies and interrupts as they are), each with
+///   ops / data / daddr  (direct commands) the linked code as the interpreter disassembles it,
+///   vm                  (pc, stack depth, run state) after every single execute(1) until it waits,
+///   intat               the number of steps after which an interrupt was delivered (-1: none).
+/// A session is cut at the first command that cannot be expressed or does not come to wait
+/// within max_steps.
+fn code_cmd(args: &[String]) -> i32 {
+    use crate::val::string_to_cps;
+    let file = std::fs::File::open(&args[0]).expect("sessions file");
+    let mut out = std::io::BufWriter::new(std::fs::File::create(&args[1]).expect("out file"));
+    let max_steps: usize = args.get(2).and_then(|s| s.parse().ok()).unwrap_or(400);
+    for line in std::io::BufReader::new(file).lines() {
+        let line = line.expect("read");
+        if line.trim().is_empty() {
+            continue;
+        }
+        let case0: Value = serde_json::from_str(&line).expect("session json");
+        for case in drive::expand_sweep(&case0) {
+        let mut s = session::Session::new();
+        s.drain();
+        let mut cmds: Vec<Value> = vec![];
+        let mut why = String::new();
+        let mut ndirect = 0usize;
+        for c in case["cmds"].as_array().unwrap_or(&vec![]) {
+            let k0 = c["k"].as_str().unwrap_or("");
+            let waiting = s.probe().state == "Input";
+            let mut nf: Value;
+            let mut text = String::new();
+            match k0 {
+                "int" => nf = json!({"k": "int"}),
+                "reply" | "line" | "direct" | "text" => {
+                    text = match c["text"].as_str() {
+                        Some(t) => t.to_string(),
+                        None => render::command_text(c),
+                    };
+                    if k0 == "reply" || (k0 == "text" && waiting) {
+                        if !waiting {
+                            why = "reply while not waiting".into();
+                            break;
+                        }
+                        nf = json!({"k": "reply", "s": string_to_cps(&text)});
+                    } else {
+                        if waiting {
+                            why = "line while waiting for a reply".into();
+                            break;
+                        }
+                        match fromtext::command(&text) {
+                            Some(v) => nf = v,
+                            None => {
+                                why = format!("not expressible: {}", text);
+                                break;
+                            }
+                        }
+                    }
+                }
+                _ => {
+                    why = format!("command kind {}", k0);
+                    break;
+                }
+            }
+            let kind = nf["k"].as_str().unwrap_or("").to_string();
+            if kind == "int" {
+                s.interrupt();
+            } else if s.enter(&text).is_some() {
+                why = "panic".into();
+                break;
+            }
+            if kind == "direct" {
+                ndirect += 1;
+                let (ops, data, daddr) = s.rt.verif_code();
+                nf["ops"] = json!(ops);
+                nf["data"] = json!(data.iter().map(val::val_to_model).collect::<Vec<Value>>());
+                nf["daddr"] = json!(daddr);
+            }
+            let mut vm: Vec<Value> = vec![];
+            let mut intat: i64 = -1;
+            let mut complete = kind == "line";
+            if kind != "line" {
+                let want = c["int_after"].as_u64();
+                for n in 0..max_steps {
+                    if want == Some(n as u64) && n > 0 {
+                        let st = s.probe().state;
+                        if st == "Running" || st == "InputRunning" {
+                            s.interrupt();
+                            intat = n as i64;
+                        }
+                    }
+                    let ev = s.step(1);
+                    let p = s.probe();
+                    vm.push(json!([p.pc, p.stack.len(), p.state]));
+                    if matches!(ev, Some(session::Ev::Stopped) | Some(session::Ev::Input(..)) | Some(session::Ev::Panic(_))
+                        | Some(session::Ev::Inkey) | Some(session::Ev::Load(_)) | Some(session::Ev::Run(_)) | Some(session::Ev::Save(_))) {
+                        complete = matches!(ev, Some(session::Ev::Stopped) | Some(session::Ev::Input(..)));
+                        break;
+                    }
+                }
+            }
+            nf["vm"] = json!(vm);
+            nf["intat"] = json!(intat);
+            cmds.push(nf);
+            if !complete {
+                why = "did not come to wait within the bound".into();
+                break;
+            }
+        }
+        let rec = json!({"id": case["id"], "ok": ndirect > 0, "cmds": cmds, "cut": why});
+        out.write_all(serde_json::to_string(&rec).unwrap().as_bytes()).unwrap();
+        out.write_all(b"\n").unwrap();
+        }
+    }
+    0
+}
+
 /// bvh debug [steps]: lines from stdin are entered one by one; after each, up to `steps`
 /// single opcodes are executed and every event and state change is printed
 fn debug_cmd(args: &[String]) -> i32 {
@@ -177,6 +293,7 @@ fn main() {
         Some("replay") => replay(&args[2..]),
         Some("drive") => drive_cmd(&args[2..]),
         Some("debug") => debug_cmd(&args[2..]),
+        Some("code") => code_cmd(&args[2..]),
         Some("shell") => shell::shell_cmd(&args[2..]),
         Some("render1") => {
             // one command per stdin line -> its source text
